@@ -6,6 +6,7 @@ unpickled copy runs in a new simulated process that inherited only the descripto
 pickling asked for."""
 import io
 import pickle
+import re
 import signal as _signal
 import sys as _sys
 
@@ -23,6 +24,9 @@ import billiard.popen_forkserver as PFS
 from billiard import context as _bctx
 from billiard import reduction as _red
 import multiprocessing.util as _mpu
+
+
+_ADDR = re.compile(r' at 0x[0-9a-fA-F]+')
 
 
 class _DupFd:
@@ -243,8 +247,21 @@ def install_pool():
                 text = msg % args
             except Exception:       # noqa
                 text = str(msg)
+            text = _ADDR.sub(' at 0x?', text)       # object addresses differ between interpreters
             k.record('pool-error', text[:160], type(exc).__name__ if exc is not None else '')
     _set(P, 'error', _error)
+    orig_soft = P.TimeoutHandler.on_soft_timeout
+    orig_hard = P.TimeoutHandler.on_hard_timeout
+
+    def _soft(self, job):
+        state.K.record('soft-intent', job._job)
+        return orig_soft(self, job)
+
+    def _hard(self, job):
+        state.K.record('hard-intent', job._job)
+        return orig_hard(self, job)
+    _set(P.TimeoutHandler, 'on_soft_timeout', _soft)
+    _set(P.TimeoutHandler, 'on_hard_timeout', _hard)
     orig_step = BC.restart_state.step
 
     def _step(self, now=None):
